@@ -205,10 +205,10 @@ Proof.
             else if is_mark t then Ok s0 else updaters cf hd s0 t v d) by (intros; reflexivity).
   rewrite (U s a), (U s (a + b)).
   destruct (is_mark v) eqn:Ev.
-  - destruct (t =? v) eqn:E; cbn [bindr]; [|reflexivity]. rewrite U. Show. rewrite Ev, E. reflexivity.
+  - destruct (t =? v) eqn:E; cbn [bindr]; [|reflexivity]. rewrite U. reflexivity.
   - destruct (is_mark t) eqn:Et.
-    + cbn [bindr]. rewrite U, Ev, Et. reflexivity.
+    + cbn [bindr]. rewrite U. reflexivity.
     + rewrite <- (updaters_add cf hd s t v a b Ha Hb). unfold bindr.
       destruct (updaters cf hd s t v a) as [s1| |]; try reflexivity.
-      rewrite U, Ev, Et. reflexivity.
+      rewrite U. reflexivity.
 Qed.
